@@ -92,16 +92,16 @@ Proof.
 Qed.
 Lemma premark_good : forall st a st1, premark st a = Some st1 -> good st st1.
 Proof.
-  unfold premark. intros st a st1. destruct a as [| |id xs|]; try (intros E; inversion E; apply good_refl).
-  destruct xs as [|[|g| |] r]; try (intros E; inversion E; apply good_refl).
+  unfold premark. intros st a st1. destruct a as [| |id xs]; try (intros E; inversion E; apply good_refl).
+  destruct xs as [|[|g|] r]; try (intros E; inversion E; apply good_refl).
   destruct (mark_of st id g); [intros E; inversion E; apply good_refl|].
   destruct (resolve st g) eqn:R; [|discriminate]. intros E; inversion E.
   eapply good_set_mark; eauto. repeat split.
 Qed.
 Lemma deferred_resolve : forall st a id c, deferred st a = Some (id, c) -> exists g, resolve st g = Some c.
 Proof.
-  unfold deferred. intros st a id c. destruct a as [| |i xs|]; try discriminate.
-  destruct xs as [|[|g| |] r]; try discriminate.
+  unfold deferred. intros st a id c. destruct a as [| |i xs]; try discriminate.
+  destruct xs as [|[|g|] r]; try discriminate.
   destruct (mark_of st i g); [discriminate|]. destruct (resolve st g) eqn:R; [|discriminate].
   intros E; inversion E; subst. eauto.
 Qed.
@@ -236,8 +236,8 @@ Lemma evalM_good : forall n, goodP (evalM n).
 Proof.
   induction n as [|n IH]; intros st en e r st' E; simpl in E.
   - inversion E. apply good_refl.
-  - destruct e as [z|x|id xs|gx]; try (inversion E; apply good_refl).
-    destruct xs as [|[|f| |] args]; try (inversion E; apply good_refl).
+  - destruct e as [z|x|id xs]; try (inversion E; apply good_refl).
+    destruct xs as [|[|f|] args]; try (inversion E; apply good_refl).
     destruct (wrapper st id f) as [[b|g a]|]; [| |inversion E; apply good_refl].
     + destruct b;
         try (destruct (eval_args (evalM n) st en args) as [ar st1] eqn:EA;
@@ -272,16 +272,16 @@ Lemma sim1_same : forall r st, sim1 r (out st) r st.
 Proof. intros. split; auto. Qed.
 Lemma premark_out : forall st a st1, premark st a = Some st1 -> out st1 = out st.
 Proof.
-  unfold premark. intros st a st1. destruct a as [| |id xs|]; try (intros E; inversion E; auto; fail).
-  destruct xs as [|[|g| |] r]; try (intros E; inversion E; auto; fail).
+  unfold premark. intros st a st1. destruct a as [| |id xs]; try (intros E; inversion E; auto; fail).
+  destruct xs as [|[|g|] r]; try (intros E; inversion E; auto; fail).
   destruct (mark_of st id g); [intros E; inversion E; auto|].
   destruct (resolve st g); [|discriminate]. intros E; inversion E. reflexivity.
 Qed.
 Lemma premark_none : forall st a, premark st a = None ->
   exists id g r, a = SList id (SSym g :: r) /\ builtin_of g = None /\ slookup g (funcs st) = None.
 Proof.
-  unfold premark. intros st a. destruct a as [| |id xs|]; try discriminate.
-  destruct xs as [|[|g| |] r]; try discriminate.
+  unfold premark. intros st a. destruct a as [| |id xs]; try discriminate.
+  destruct xs as [|[|g|] r]; try discriminate.
   destruct (mark_of st id g); [discriminate|]. unfold resolve.
   destruct (builtin_of g) eqn:B; [discriminate|]. destruct (slookup g (funcs st)) eqn:F; [discriminate|].
   intros _. exists id, g, r. auto.
@@ -506,10 +506,10 @@ Theorem evalM_sim : forall ft n, simP n ft.
 Proof.
   intros ft. induction n as [|n IH]; intros st en e rS oS I R E; simpl in E.
   - inversion E; subst. exists OutOfFuel, st. split; auto. apply sim1_same.
-  - destruct e as [z|x|id xs|gx].
+  - destruct e as [z|x|id xs].
     + inversion E; subst. eexists _, _. split; [reflexivity|apply sim1_same].
     + inversion E; subst. eexists _, _. split; [reflexivity|apply sim1_same].
-    + destruct xs as [|[z|f|i ys|gy] args];
+    + destruct xs as [|[z|f|i ys] args];
         try (inversion E; subst; eexists _, _; split; [reflexivity|apply sim1_same]).
       simpl. destruct (builtin_of f) as [b|] eqn:B.
       * rewrite (wrapper_builtin st id f b B).
@@ -582,18 +582,16 @@ Proof.
            destruct NV as (rM & st' & EQ & NV). exists rM, st'. split.
            ++ destruct (wrapper st id f) as [[[]|g a]|]; exact EQ.
            ++ split; [discriminate|auto].
-    + inversion E; subst. eexists _, _. split; [reflexivity|apply sim1_same].
 Qed.
 
 (* ---- compilation (CompileList / placeholders) keeps the invariant and defines nothing ------------- *)
 Fixpoint sexp_ind2 (P : sexp -> Prop) (hI : forall z, P (SInt z)) (hS : forall x, P (SSym x))
-  (hL : forall id xs, Forall P xs -> P (SList id xs)) (hG : forall x, P (SGlob x)) (e : sexp) : P e :=
+  (hL : forall id xs, Forall P xs -> P (SList id xs)) (e : sexp) : P e :=
   match e with
   | SInt z => hI z
   | SSym x => hS x
   | SList id xs => hL id xs ((fix go (l : list sexp) : Forall P l :=
-                               match l with [] => Forall_nil P | x :: r => Forall_cons x (sexp_ind2 P hI hS hL hG x) (go r) end) xs)
-  | SGlob x => hG x
+                               match l with [] => Forall_nil P | x :: r => Forall_cons x (sexp_ind2 P hI hS hL x) (go r) end) xs)
   end.
 
 Record cg (st st' : state) : Prop := mkCg {
@@ -690,8 +688,8 @@ Qed.
 
 Lemma compile_list_cgood : forall e st, cgood st (compile_list st e).
 Proof.
-  induction e as [z|x|id xs IH|gx] using sexp_ind2; intros st; try apply cgood_refl.
-  destruct xs as [|[z|f|i ys|gy] args]; try apply cgood_refl.
+  induction e as [z|x|id xs IH] using sexp_ind2; intros st; try apply cgood_refl.
+  destruct xs as [|[z|f|i ys] args]; try apply cgood_refl.
   simpl. destruct (resolve_or_place st f) as [c st1] eqn:RP.
   destruct (resolve_or_place_spec _ _ _ _ RP) as [G1 R1].
   assert (G2 : cgood st (set_mark st1 id c)).
@@ -702,7 +700,7 @@ Proof.
   inversion IHargs as [|? ? Pa Prest]; subst.
   apply IHr; auto.
   destruct (strict_at c i); auto.
-  destruct a as [| |j ys|]; auto.
+  destruct a as [| |j ys]; auto.
   destruct (marked st2 (SList j ys)); auto.
   eapply cgood_trans; [exact G2|apply Pa].
 Qed.
@@ -838,25 +836,16 @@ Definition HInv (m : mstate) (s : sstate) : Prop :=
 Definition osim (oS oM : obs) : Prop :=
   (comparable (fst oS) = true -> oM = oS) /\ (is_val (fst oS) = false -> is_val (fst oM) = false).
 
-Lemma globalize_guarded : forall ps body gv, g_body gv ps body = true -> globalize_body gv ps body = (body, gv).
-Proof.
-  intros ps. induction body as [|f r IH]; simpl; intros gv G; auto.
-  apply andb_true_iff in G. destruct G as [G1 G2].
-  destruct f as [z|x|id xs|gx]; try (rewrite (IH gv G2); reflexivity).
-  rewrite G1. rewrite (IH gv G2). reflexivity.
-Qed.
-Lemma run_forms_sim : forall n fs st ft gv v, Inv st -> Rel st ft -> guard_forms n st gv fs = true ->
+Lemma run_forms_sim : forall n fs st ft gv v, Inv st -> Rel st ft ->
   exists rM st', run_forms n st gv fs v = (rM, st', snd (run_formsS n ft gv (out st) fs v)) /\
     sim1 (fst (fst (fst (run_formsS n ft gv (out st) fs v)))) (snd (fst (fst (run_formsS n ft gv (out st) fs v)))) rM st' /\
     Inv st' /\ Rel st' (snd (fst (run_formsS n ft gv (out st) fs v))).
 Proof.
-  intros n. induction fs as [|t r IH]; simpl; intros st ft gv v I R G.
+  intros n. induction fs as [|t r IH]; simpl; intros st ft gv v I R.
   - eexists _, _. split; [reflexivity|]. split; [apply sim1_same|auto].
   - destruct t as [e|nm]; [|apply IH; auto].
     destruct (parse_defun e) as [[[nm ps] body]|] eqn:PD.
-    + apply andb_true_iff in G. destruct G as [GB G2].
-      rewrite (globalize_guarded ps body gv GB). simpl.
-      destruct (defunM_step st ft nm ps body I R) as (I' & R' & O'). rewrite <- O'. apply IH; auto.
+    + destruct (defunM_step st ft nm ps body I R) as (I' & R' & O'). rewrite <- O'. apply IH; auto.
     + destruct (parse_gdef e) as [[[always nm] z]|] eqn:PG; [apply IH; auto|].
       destruct (evalS n ft gv (out st) e) as [r1 o1] eqn:E1.
       destruct (evalM_sim ft n st gv e r1 o1 I R E1) as (rM & st1 & EM & [S1 S2]).
@@ -869,32 +858,30 @@ Proof.
           (eexists _, _; split; [reflexivity|]; split; [split; auto|split; [auto|eapply same_tabs_rel; eauto]]).
 Qed.
 
-Lemma compile_defs_sim : forall fs st ft gv, Inv st -> Rel st ft -> guard_defs st gv fs = true ->
+Lemma compile_defs_sim : forall fs st ft gv, Inv st -> Rel st ft ->
   snd (compile_defs st gv fs) = snd (compile_defsS ft gv fs) /\
   snd (fst (compile_defs st gv fs)) = snd (fst (compile_defsS ft gv fs)) /\
   Inv (fst (fst (compile_defs st gv fs))) /\
   Rel (fst (fst (compile_defs st gv fs))) (fst (fst (compile_defsS ft gv fs))) /\
   out (fst (fst (compile_defs st gv fs))) = out st.
 Proof.
-  induction fs as [|t r IH]; simpl; intros st ft gv I R G; auto.
+  induction fs as [|t r IH]; simpl; intros st ft gv I R; auto.
   destruct t as [e|nm].
   - destruct (parse_defun e) as [[[nm ps] body]|] eqn:PD.
-    + apply andb_true_iff in G. destruct G as [GB G2].
-      rewrite (globalize_guarded ps body gv GB). simpl.
-      destruct (defunM_step st ft nm ps body I R) as (I' & R' & O').
-      specialize (IH _ _ gv I' R' G2).
+    + destruct (defunM_step st ft nm ps body I R) as (I' & R' & O').
+      specialize (IH _ _ gv I' R').
       destruct (compile_defs (defunM st nm ps body) gv r) as [[st' gv'] r'].
       destruct (compile_defsS ((nm, (ps, body)) :: ft) gv r) as [[ft' gv''] r'']. simpl in *.
       destruct IH as (A & A2 & B & C & D). split; [congruence|split; [auto|split; [auto|split; [auto|congruence]]]].
     + destruct (parse_gdef e) as [[[always nm] z]|] eqn:PG.
-      * specialize (IH _ _ (gdef gv always nm z) I R G).
+      * specialize (IH _ _ (gdef gv always nm z) I R).
         destruct (compile_defs st (gdef gv always nm z) r) as [[st' gv'] r'].
         destruct (compile_defsS ft (gdef gv always nm z) r) as [[ft' gv''] r'']. simpl in *.
         destruct IH as (A & A2 & B & C & D). split; [congruence|split; [auto|split; [auto|split; [auto|congruence]]]].
-      * specialize (IH _ _ gv I R G). destruct (compile_defs st gv r) as [[st' gv'] r'].
+      * specialize (IH _ _ gv I R). destruct (compile_defs st gv r) as [[st' gv'] r'].
         destruct (compile_defsS ft gv r) as [[ft' gv''] r'']. simpl in *.
         destruct IH as (A & A2 & B & C & D). split; [congruence|split; [auto|split; [auto|split; [auto|congruence]]]].
-  - specialize (IH _ _ gv I R G). destruct (compile_defs st gv r) as [[st' gv'] r'].
+  - specialize (IH _ _ gv I R). destruct (compile_defs st gv r) as [[st' gv'] r'].
     destruct (compile_defsS ft gv r) as [[ft' gv''] r'']. simpl in *.
     destruct IH as (A & A2 & B & C & D). split; [congruence|split; [auto|split; [auto|split; [auto|congruence]]]].
 Qed.
@@ -909,7 +896,7 @@ Proof.
   intros f. rewrite (cg_def_of _ _ I C). apply R.
 Qed.
 
-Lemma step_sim : forall n m s o, HInv m s -> guard_op n m o = true ->
+Lemma step_sim : forall n m s o, HInv m s ->
   HInv (fst (stepM n m o)) (fst (stepS n s o)) /\
   match snd (stepS n s o), snd (stepM n m o) with
   | Some a, Some b => osim a b
@@ -917,17 +904,17 @@ Lemma step_sim : forall n m s o, HInv m s -> guard_op n m o = true ->
   | _, _ => False
   end.
 Proof.
-  intros n m s o (I & R & CE & GE) G. destruct o as [cid forms|cid|cid]; simpl in *.
+  intros n m s o (I & R & CE & GE). destruct o as [cid forms|cid|cid]; simpl in *.
   - split; auto. unfold HInv; simpl. split; [auto|split; [auto|split; [congruence|auto]]].
   - rewrite <- CE, <- GE. destruct (nlookup cid (codes m)) as [fs|]; [|split; [unfold HInv; auto|simpl; auto]].
-    destruct (compile_defs_sim fs (ms m) (sft s) (mgv m) I R G) as (A & A2 & B & C & D).
+    destruct (compile_defs_sim fs (ms m) (sft s) (mgv m) I R) as (A & A2 & B & C & D).
     destruct (compile_defs (ms m) (mgv m) fs) as [[st1 gv1] fs'].
     destruct (compile_defsS (sft s) (mgv m) fs) as [[ft' gv1'] fs'']. simpl in *. subst fs'' gv1'.
     destruct (cgood_rel _ _ _ (compile_rest_cgood fs' st1) B C) as [I' R'].
     split; auto. unfold HInv; simpl. split; [auto|split; [auto|split; [congruence|auto]]].
   - rewrite <- CE, <- GE. destruct (nlookup cid (codes m)) as [fs|]; [|split; [unfold HInv; auto|simpl; auto]].
     pose proof (good_set_out (ms m) []) as [T0 I0].
-    destruct (run_forms_sim n fs (set_out (ms m) []) (sft s) (mgv m) VNil (I0 I) (same_tabs_rel _ _ _ T0 R) G)
+    destruct (run_forms_sim n fs (set_out (ms m) []) (sft s) (mgv m) VNil (I0 I) (same_tabs_rel _ _ _ T0 R))
       as (rM & st' & EM & S1 & I' & R').
     simpl in EM, S1, R'. rewrite EM.
     destruct (run_formsS n (sft s) (mgv m) [] fs VNil) as [[[rS oS] ft'] gv']. simpl in *.
@@ -936,20 +923,19 @@ Proof.
     intros Cc. destruct (S1 Cc) as [-> ->]. reflexivity.
 Qed.
 
-Theorem history_refines_from : forall n ops m s, HInv m s -> guard_ops n m ops = true ->
+(* EVERY history refines S outcome by outcome (the statement refuted for the unrepaired code) *)
+Theorem history_refines_from : forall n ops m s, HInv m s ->
   Forall2 osim (runS n s ops) (runM n m ops).
 Proof.
-  intros n. induction ops as [|o r IH]; simpl; intros m s H G; [constructor|].
-  apply andb_true_iff in G. destruct G as [G1 G2].
-  destruct (step_sim n m s o H G1) as [H' OB].
+  intros n. induction ops as [|o r IH]; simpl; intros m s H; [constructor|].
+  destruct (step_sim n m s o H) as [H' OB].
   destruct (stepM n m o) as [m' obM]. destruct (stepS n s o) as [s' obS]. simpl in *.
-  specialize (IH m' s' H' G2).
+  specialize (IH m' s' H').
   destruct obS as [a|], obM as [b|]; try contradiction; simpl; auto.
 Qed.
 Lemma HInv_init : HInv minit sinit.
 Proof. split; [apply Inv_init|]. split; [intros f; reflexivity|split; reflexivity]. Qed.
-Theorem history_refines : forall n ops, guard_ops n minit ops = true ->
-  Forall2 osim (runS n sinit ops) (runM n minit ops).
+Theorem history_refines : forall n ops, Forall2 osim (runS n sinit ops) (runM n minit ops).
 Proof. intros. apply history_refines_from; auto. apply HInv_init. Qed.
 
 (* ---- consequences in property terms ---------------------------------------------------------------- *)
@@ -1046,7 +1032,7 @@ Theorem evalS_ext : forall ft ft', (forall f, slookup f ft = slookup f ft') ->
   forall n en o e, evalS n ft en o e = evalS n ft' en o e.
 Proof.
   intros ft ft' H. induction n as [|n IH]; intros en o e; simpl; auto.
-  destruct e as [z|x|id xs|gx]; auto. destruct xs as [|[z|f|i ys|gy] args]; auto.
+  destruct e as [z|x|id xs]; auto. destruct xs as [|[z|f|i ys] args]; auto.
   destruct (builtin_of f) as [b|].
   - destruct b; try (rewrite (eval_argsS_ext _ _ IH); reflexivity).
     + apply eval_seqS_ext; auto.
@@ -1149,7 +1135,6 @@ Definition stale_ops2 : list op :=
             SList 13 [SSym "h"]];
    ORun 0].
 Example stale_lambda_repaired :
-  guard_ops 50 minit stale_ops = true /\ guard_ops 50 minit stale_ops2 = true /\
   runM 50 minit stale_ops = [(Val (VInt 2), [])] /\ runS 50 sinit stale_ops = [(Val (VInt 2), [])] /\
   runM 50 minit stale_ops2 = [(Val (VInt 3), [])] /\ runS 50 sinit stale_ops2 = [(Val (VInt 3), [])].
 Proof. vm_compute. auto 10. Qed.
@@ -1158,42 +1143,38 @@ Proof. vm_compute. auto 10. Qed.
    (nodef (+ 1 (list 2))) compiled: the error in the argument masks undefined-function *)
 Definition undef_ops (arg : sexp) : list op := [OLoad 0 [SList 1 [SSym "nodef"; arg]]; OCompile 0; ORun 0].
 Lemma undefined_args_first_witness :
-  guard_ops 50 minit (undef_ops (SList 2 [SSym "emit"; SInt 5])) = true /\
   runS 50 sinit (undef_ops (SList 2 [SSym "emit"; SInt 5])) = [(Err EUndefined, [])] /\
   runM 50 minit (undef_ops (SList 2 [SSym "emit"; SInt 5])) = [(Err EUndefined, [VInt 5])] /\
   runS 50 sinit (undef_ops (SList 2 [SSym "+"; SInt 1; SList 3 [SSym "list"; SInt 2]])) = [(Err EUndefined, [])] /\
   runM 50 minit (undef_ops (SList 2 [SSym "+"; SInt 1; SList 3 [SSym "list"; SInt 2]])) = [(Err EType, [])].
 Proof. vm_compute. auto 10. Qed.
 Theorem undefined_call_equal_refuted :
-  ~ (forall n ops, guard_ops n minit ops = true -> runM n minit ops = runS n sinit ops).
+  ~ (forall n ops, runM n minit ops = runS n sinit ops).
 Proof.
   intros H. specialize (H 50 (undef_ops (SList 2 [SSym "emit"; SInt 5]))).
-  destruct undefined_args_first_witness as (G & S1 & M1 & _). rewrite S1, M1 in H. specialize (H G). discriminate.
+  destruct undefined_args_first_witness as (S1 & M1 & _). rewrite S1, M1 in H. discriminate.
 Qed.
 
-(* (defun f (x) v) (defun g (v) (f 0)) (defvar v 1) (g 5), the code object evaluated twice: when f is
-   defined the package has no variable v, so the body form becomes a reference to a newly created package
-   variable: f answers the package variable (1) although its caller binds v (5); the second evaluation of
-   the same defun finds the variable and leaves the symbol: 5 *)
+(* the witness of the repaired finding C08-bare-symbol-body (repo_fixes/C08-4):
+   (defun f (x) v) (defun g (v) (f 0)) (defvar v 1) (g 5), the code object evaluated twice.  The body form v is
+   a variable reference looked up at call time: f sees its caller's binding (5), on the first evaluation as on
+   the second (the unrepaired code answered the package variable, 1, the first time) *)
 Definition bare_ops : list op :=
   [OLoad 0 [dfn 1 "f" 2 ["x"] [SSym "v"];
             dfn 3 "g" 4 ["v"] [SList 5 [SSym "f"; SInt 0]];
             SList 6 [SSym "defvar"; SSym "v"; SInt 1];
             SList 7 [SSym "g"; SInt 5]];
    ORun 0; ORun 0].
-Lemma bare_symbol_witness :
-  guard_ops 50 minit bare_ops = false /\
+(* (defun f (x) nov) (f 0): unbound-variable (the unrepaired code returned the marker object <unbound>) *)
+Definition bare_ops2 : list op :=
+  [OLoad 0 [dfn 1 "f" 2 ["x"] [SSym "nov"]; SList 3 [SSym "f"; SInt 0]]; ORun 0].
+Example bare_symbol_repaired :
   runS 50 sinit bare_ops = [(Val (VInt 5), []); (Val (VInt 5), [])] /\
-  runM 50 minit bare_ops = [(Val (VInt 1), []); (Val (VInt 5), [])].
+  runM 50 minit bare_ops = [(Val (VInt 5), []); (Val (VInt 5), [])] /\
+  runS 50 sinit bare_ops2 = [(Err EUnbound, [])] /\ runM 50 minit bare_ops2 = [(Err EUnbound, [])].
 Proof. vm_compute. auto. Qed.
-Theorem bare_body_symbol_refuted :
-  exists ops a b, runS 50 sinit ops = [a; a] /\ runM 50 minit ops = [b; a] /\ comparable (fst a) = true /\ a <> b.
-Proof.
-  exists bare_ops, (Val (VInt 5), []), (Val (VInt 1), []).
-  destruct bare_symbol_witness as (_ & S1 & M1). repeat split; auto. discriminate.
-Qed.
 
-(* non-vacuity: a guarded history with a forward reference (caller before callee), compilation, repeated
+(* non-vacuity: a history with a forward reference (caller before callee), compilation, repeated
    evaluation of the same code object, a redefinition between evaluations; all outcomes are values and
    M = S; the state has compiled slots and a patched placeholder *)
 Definition demo_ops : list op :=
@@ -1205,7 +1186,6 @@ Definition demo_ops : list op :=
    OLoad 2 [dfn 9 "caller" 10 ["a"] [SList 11 [SSym "callee"; SSym "a"; SInt 3]]];
    ORun 2; ORun 1].
 Example demo_guarded :
-  guard_ops 50 minit demo_ops = true /\
   runM 50 minit demo_ops = runS 50 sinit demo_ops /\
   runS 50 sinit demo_ops =
     [(Val (VSym "callee"), []);
@@ -1225,11 +1205,9 @@ Example demo_inv : Inv demo_state /\ Rel demo_state
     ("callee", (["p"; "q"], [SList 6 [SSym "list"; SSym "p"; SList 7 [SSym "emit"; SSym "q"]]]));
     ("caller", (["a"], [SList 3 [SSym "callee"; SSym "a"; SInt 2]]))].
 Proof.
-  assert (H : forall ops m s, HInv m s -> guard_ops 50 m ops = true ->
+  assert (H : forall ops m s, HInv m s ->
      HInv (fold_left (fun m o => fst (stepM 50 m o)) ops m) (fold_left (fun s o => fst (stepS 50 s o)) ops s)).
-  { induction ops as [|o r IH]; simpl; intros m s Hm G; auto.
-    apply andb_true_iff in G. destruct G as [G1 G2]. apply IH; auto. apply step_sim; auto. }
-  destruct demo_guarded as (G & _).
-  destruct (H demo_ops minit sinit HInv_init G) as (I & R & _). split; [exact I|].
+  { induction ops as [|o r IH]; simpl; intros m s Hm; auto. apply IH; auto. apply step_sim; auto. }
+  destruct (H demo_ops minit sinit HInv_init) as (I & R & _). split; [exact I|].
   exact R.
 Qed.
